@@ -341,6 +341,72 @@ theorem resolves_matrix (id : Nat) (m : Matrix α) (r c : ν) (hw : (View.matrix
     simp only [View.shape, lens_cons, lens_nil] at ha hb
     exact ravel_injective _ a b ha hb h
 
+theorem resolves_range (s : View ν α) (rs : List IndexRange) (ih : s.WF → Resolves s) :
+    (View.range s rs).WF → Resolves (View.range s rs) := by
+  intro hw
+  simp only [View.WF] at hw
+  have hl := rangeShape_length hw.2
+  refine resolves_unary (ih hw.1) (fun idx => rangeCoords idx rs) (fun _ => rfl) rfl ?_ ?_
+  · intro idx hin; exact rangeCoords_inBounds hw.2 hin
+  · intro a b ha hb h
+    have la := inBounds_length ha
+    have lb := inBounds_length hb
+    simp only [View.shape, lens_length, hl] at la lb
+    have hr : rs.length = s.shape.length := by
+      have := rangeShape_names hw.2
+      clear this
+      -- RangesOK forces equal lengths
+      have key : ∀ (sh : Shape ν) (rs : List IndexRange), RangesOK sh rs → rs.length = sh.length := by
+        intro sh
+        induction sh with
+        | nil => intro rs h; cases rs <;> simp_all [RangesOK]
+        | cons d ds ih2 =>
+          intro rs h
+          cases rs with
+          | nil => simp [RangesOK] at h
+          | cons r rs => simp only [RangesOK] at h; simp [ih2 rs h.2]
+      exact key _ _ hw.2
+    exact rangeCoords_inj (by omega) (by omega) h
+
+
+theorem resolves_reverse (s : View ν α) (r : List Bool) (ih : s.WF → Resolves s) :
+    (View.reverse s r).WF → Resolves (View.reverse s r) := by
+  intro hw
+  simp only [View.WF] at hw
+  have hgood := (View.correct s hw.1).1
+  refine resolves_unary (ih hw.1) (fun idx => reverseCoords idx (lens s.shape) r)
+    (fun _ => rfl) rfl ?_ ?_
+  · intro idx hin
+    simp only [View.shape] at hin
+    have la := inBounds_length hin
+    have hb := bounded_of_inBounds hin hgood.lens_le
+    have hspec := tryReverseIndexes_spec (ls := lens s.shape) (r := r) (idx := idx)
+      (by simpa using hw.2) la hb hgood.lens_le
+    cases hc : tryReverseIndexes idx (lens s.shape) r with
+    | none => simp [hc, hin] at hspec
+    | some mapped =>
+      simp only [hc] at hspec
+      obtain ⟨_, _, c, d⟩ := hspec
+      rw [← d hin, c, hin]
+  · intro a b ha hb h
+    simp only [View.shape] at ha hb
+    exact reverseCoords_inj (by simpa using hw.2) ha hb h
+
+
+theorem resolves_mrange (s : View ν α) (rows columns : IndexRange) (ih : s.WF → Resolves s)
+    (hw : (View.mrange s rows columns).WF) : Resolves (View.mrange s rows columns) := by
+  simp only [View.WF] at hw
+  have h : Resolves (View.range s [rows, columns]) :=
+    resolves_range s [rows, columns] ih (by simp only [View.WF]; exact ⟨hw.1, hw.2.2⟩)
+  exact h
+
+theorem resolves_mreverse (s : View ν α) (rows columns : Bool) (ih : s.WF → Resolves s)
+    (hw : (View.mreverse s rows columns).WF) : Resolves (View.mreverse s rows columns) := by
+  simp only [View.WF] at hw
+  have h : Resolves (View.reverse s [rows, columns]) :=
+    resolves_reverse s [rows, columns] ih (by simp only [View.WF]; exact ⟨hw.1, by simp [hw.2]⟩)
+  exact h
+
 theorem View.resolves (v : View ν α) : v.WF → Resolves v := by
   induction v using View.ind with
   | tensor id t => intro hw; exact resolves_tensor id t hw
@@ -352,35 +418,13 @@ theorem View.resolves (v : View ν α) : v.WF → Resolves v := by
     · intro idx hin
       simpa [matrixOf_lens s r c hw.2.1] using hin
     · intro a b _ _ h; exact h
+  | mrange s rows columns ih => exact resolves_mrange s rows columns ih
+  | mreverse s rows columns ih => exact resolves_mreverse s rows columns ih
   | tmap s ih =>
     intro hw
     simp only [View.WF] at hw
     exact resolves_unary (ih hw) id (fun _ => rfl) rfl (fun _ h => h) (fun _ _ _ _ h => h)
-  | range s rs ih =>
-    intro hw
-    simp only [View.WF] at hw
-    have hl := rangeShape_length hw.2
-    refine resolves_unary (ih hw.1) (fun idx => rangeCoords idx rs) (fun _ => rfl) rfl ?_ ?_
-    · intro idx hin; exact rangeCoords_inBounds hw.2 hin
-    · intro a b ha hb h
-      have la := inBounds_length ha
-      have lb := inBounds_length hb
-      simp only [View.shape, lens_length, hl] at la lb
-      have hr : rs.length = s.shape.length := by
-        have := rangeShape_names hw.2
-        clear this
-        -- RangesOK forces equal lengths
-        have key : ∀ (sh : Shape ν) (rs : List IndexRange), RangesOK sh rs → rs.length = sh.length := by
-          intro sh
-          induction sh with
-          | nil => intro rs h; cases rs <;> simp_all [RangesOK]
-          | cons d ds ih2 =>
-            intro rs h
-            cases rs with
-            | nil => simp [RangesOK] at h
-            | cons r rs => simp only [RangesOK] at h; simp [ih2 rs h.2]
-        exact key _ _ hw.2
-      exact rangeCoords_inj (by omega) (by omega) h
+  | range s rs ih => exact resolves_range s rs ih
   | mask s ms ih =>
     intro hw
     simp only [View.WF] at hw
